@@ -274,6 +274,8 @@ class EIO(Engine):
             return {'skip': 1}, []
         incs = []
         obj, bits, chunk = self.obj, self.bits, self.cfg['chunk']
+        if not isinstance(chunk, int) or chunk < 8 or chunk % 8:
+            return {'skip': 'chunk size must be a positive multiple of 8 bits'}, []
         want = bits_to_bytes(bits)
         plan = ev.get('plan')
         w = SimWriter(plan)
